@@ -3,6 +3,8 @@ pub mod c01_05;
 pub mod c06;
 pub mod c07;
 pub mod c08;
+pub mod c09;
+pub mod c10;
 pub mod c12;
 pub mod c13;
 pub mod c16;
@@ -19,6 +21,8 @@ pub fn dispatch(cfg: &Cfg) -> i32 {
         "C06" => c06::run(cfg),
         "C07" => c07::run(cfg),
         "C08" => c08::run(cfg),
+        "C09" => c09::run(cfg),
+        "C10" => c10::run(cfg),
         "C12" => c12::run(cfg),
         "C13" => c13::run(cfg),
         "C16" => c16::run(cfg),
